@@ -167,6 +167,29 @@ fn vector_tile_dup_keys(_a: &[String]) -> Result<bool> {
 	Ok(match props { Err(_) => true, Ok(p) => format!("{p:?}") != format!("{:?}", versatiles_geometry::GeoProperties::from(vec![("b", versatiles_geometry::GeoValue::from("y"))])) })
 }
 
+async fn pmtiles_open_self_referential(_a: &[String]) -> Result<bool> {
+	// C19/C03: a PMTiles file whose leaf directory entry points back to the same directory bytes must be rejected with an error
+	// header (127 bytes, internal compression = none), root directory D at 127, leaf directories = D again at 132
+	let d: Vec<u8> = vec![0x01, 0x00, 0x00, 0x05, 0x01];   // 1 entry: id 0, run_length 0 (leaf pointer), length 5, offset 0
+	let mut f: Vec<u8> = Vec::new();
+	f.extend(b"PMTiles"); f.push(3);
+	let put64 = |f: &mut Vec<u8>, v: u64| f.extend(v.to_le_bytes());
+	put64(&mut f, 127); put64(&mut f, 5);      // root dir
+	put64(&mut f, 137); put64(&mut f, 2);      // metadata "{}"
+	put64(&mut f, 132); put64(&mut f, 5);      // leaf dirs
+	put64(&mut f, 139); put64(&mut f, 0);      // tile data
+	put64(&mut f, 0); put64(&mut f, 0); put64(&mut f, 0);
+	f.push(0); f.push(1); f.push(1); f.push(1); f.push(0); f.push(0);   // clustered, internal compr = none, tile compr = none, type = mvt, zooms
+	for _ in 0..4 { f.extend(0i32.to_le_bytes()); }
+	f.push(0); f.extend(0i32.to_le_bytes()); f.extend(0i32.to_le_bytes());
+	assert_eq!(f.len(), 127);
+	f.extend(&d); f.extend(&d); f.extend(b"{}");
+	let reader = versatiles_core::io::DataReaderBlob::from(Blob::from(f));
+	let r = versatiles_container::PMTilesReader::open_reader(Box::new(reader)).await;
+	println!("open_reader -> {}", match &r { Ok(_) => "Ok".to_string(), Err(e) => format!("Err({e})") });
+	Ok(false)
+}
+
 fn main() -> Result<()> {
 	let args: Vec<String> = std::env::args().skip(1).collect();
 	if args.is_empty() { eprintln!("usage: verif_replay <case> args…"); std::process::exit(2); }
@@ -179,6 +202,7 @@ fn main() -> Result<()> {
 			"pmtiles_dir_from_bytes" => pmtiles_dir_from_bytes(rest),
 			"block_definition_from_bytes" => block_definition_from_bytes(rest),
 			"vector_tile_dup_keys" => vector_tile_dup_keys(rest),
+			"pmtiles_open_self_referential" => rt.block_on(pmtiles_open_self_referential(rest)),
 			"svarint_roundtrip" => svarint_roundtrip(rest),
 			"pbf_length_prefix" => pbf_length_prefix(rest),
 			"vector_tile_from_bytes" => vector_tile_from_bytes(rest),
